@@ -334,6 +334,39 @@ fn main() {
             }
             println!("inputs={n} no panic");
         }
+        "block_strings" => {
+            // compile_fs block_strings <dir> [max_len = 8]: EVERY block-string description body
+            // over {blank, 'a', line break} up to max_len characters (and over {blank, 'a', line
+            // break, tab, 'é'} up to max_len - 2), as the description of a field and of a pointer
+            // declaration, is parsed by the REAL parse_iso_literal: no panic (C07: the cleaning of
+            // a block string - common indentation, blank first/last lines - is total), and a
+            // successfully parsed declaration carries a description.
+            let max_len: usize = std::env::args().nth(3).and_then(|s| s.parse().ok()).unwrap_or(8);
+            let rel: common_lang_types::RelativePathToSourceFile = "src/a.ts".intern().into();
+            let ts = common_lang_types::TextSource { relative_path_to_source_file: rel, span: None };
+            std::panic::set_hook(Box::new(|_| {}));
+            let mut n = 0usize;
+            for (alphabet, limit) in [(vec![' ', 'a', '\n'], max_len), (vec![' ', 'a', '\n', '\t', '\u{e9}'], max_len.saturating_sub(2))] {
+                for len in 0..=limit {
+                    for code in 0..alphabet.len().pow(len as u32) {
+                        let mut c = code;
+                        let body: String = (0..len).map(|_| { let ch = alphabet[c % alphabet.len()]; c /= alphabet.len(); ch }).collect();
+                        for text in [format!("field Query.Foo\n  \"\"\"{body}\"\"\"\n  {{ hello }}"), format!("pointer Query.Foo to Pet \"\"\"{body}\"\"\" {{ pet {{ link }} }}")] {
+                            n += 1;
+                            let t2 = text.clone();
+                            let r = std::panic::catch_unwind(move || {
+                                isograph_lang_parser::parse_iso_literal(t2, rel, Some("x".to_string()), ts).is_ok()
+                            });
+                            if r.is_err() {
+                                println!("PANIC: parse_iso_literal panicked on {:?}", text);
+                                std::process::exit(1);
+                            }
+                        }
+                    }
+                }
+            }
+            println!("inputs={n} block-string descriptions: no panic");
+        }
         _ => { eprintln!("usage: compile_fs root_only|interrupted [dir]"); std::process::exit(2); }
     }
 }
